@@ -1673,7 +1673,8 @@ class Engine:
         modset = set()
         gran = getattr(self, "_gran", {}) or {}
         st.wlog.extend(mods)
-        st.wlog.extend(gran)
+        # cells of objects allocated after function entry are not effects on the state a loop / caller contract talks about
+        st.wlog.extend(b_ for b_, objs_ in gran.items() if any(not _is_fresh_id(z3.simplify(o_)) for o_ in objs_))
         for m in mods:
             if m == "list":
                 modset |= {"list.len", "list.I", "list.R", "list.S", "list.nan"}
